@@ -588,7 +588,8 @@ class C07(E2EProp):
             return None
         doc = decode_runes(case.split(" | ")[0].split(" ", 1)[1])
         lines = doc.split("\n")
-        if any(not (l in C07.OPEN + C07.CLOSE + C07.NEUT + [""]) for l in lines):
+        FALSE = [".#if 0", ".#if -f latex"]          # conditions that do not hold in an xhtml compilation
+        if any(not (l in C07.OPEN + C07.CLOSE + C07.NEUT + FALSE + [""]) for l in lines):
             return None
         inbf = False
         for l in lines:           # a filter block holds raw text only: macros inside it (another .Bf included) are reported by design
@@ -602,10 +603,23 @@ class C07(E2EProp):
         stack, off = [], []
         inde = False
         crossing = False     # markup opened by Bm spans paragraphs, not blocks: a block boundary inside it is reported by design
+        ign = 0              # depth of ignored conditionals: inside, only #if and #; count
         for i, l in enumerate(lines, 1):
             if inde:
                 if l == ".#.":
                     inde = False
+                continue
+            if ign > 0:
+                if l.startswith(".#if"):
+                    stack.append(("#if", i))
+                    ign += 1
+                elif l == ".#;":
+                    stack.pop()
+                    ign -= 1
+                continue
+            if l in FALSE:
+                stack.append(("#if", i))
+                ign = 1
                 continue
             if any(m == "Bm" for m, _ in stack) and (l in (".Bd", ".Ed", ".El") or l.startswith(".Bl")):
                 crossing = True
@@ -651,7 +665,12 @@ class C07(E2EProp):
             lay.append(e2e.case_of("x0", ".#de inner\n" + x + "\n.#.\n.#de outer\nt\n.inner\n.#.\nt\n.outer\n.outer\n"))
             lay.append(e2e.case_of("x0", "t\n.If lib.frundis\nu\n\n.cw\nv\n.cw\n", [("lib.frundis", ".\\\" library\n\n.#de cw\n" + x + "\n.#.\n")]))
             lay.append(e2e.case_of("l0", "t\n.If lib.frundis\n.#de w2\n.cw\n" + x + "\n.#.\n.w2\n", [("lib/lib.frundis", ".#de cw\nz\n" + x + "\n.#.\n")], ["lib"]))
+        # conditionals inside ignored regions: what a false branch hides must neither be reported nor unbalance the rest
+        calpha = [".#if 0", ".#if 1", ".#;", "t", ".Bm", ".Em", ".#if -f latex"]
+        cond = [e2e.case_of(fm, e2e.doc_of(s)) for fm in ("x0", "k0") for k in range(2, T(tier, 5, 6) + 1) for s in itertools.product(calpha, repeat=k)
+                if any(x.startswith(".#if 0") or x.startswith(".#if -f") for x in s) and (fm == "x0" or k <= 4)]
         return [("S-e2e-nesting", cases, "all sequences <= %d over 8 openers, 7 closers, 4 neutral lines (xhtml fragment)" % n),
+                ("S-e2e-ignored", cond, "all sequences <= %d over false, true and format-restricted conditionals, their end, text and markup, with at least one false conditional (bytes and diagnostics with their locations)" % T(tier, 5, 6)),
                 ("S-e2e-layouts", lay, "pairs of openers/closers embedded in comments, continuation lines, empty control lines, user-macro wrappers and included files")]
 
 
